@@ -63,7 +63,11 @@ def classes(tier):
                 out.append(("hidden", p, op, n, b2))
     from .isa_check import HEAVY
 
-    out.sort(key=lambda c: 0 if c[2] in HEAVY else 1)
+    for p in ([None] if tier == "quick" else [None, 0x32]):
+        for op in range(256):
+            if op not in X.PRE_BYTES:
+                out.append(("rust-hidden", p, op, None, None))
+    out.sort(key=lambda c: (0 if c[0] == "rust-hidden" and (0x80 <= c[2] <= 0xBF or 0xE0 <= c[2] <= 0xEF) else 1, 0 if c[2] in HEAVY else 1))
     ys = [0x40, 0x90, 0xC8, 0xE0, 0xF0, 0x45, 0x6C, 0x04, 0xCB, 0xC4, 0x2C, 0xFD] if tier == "quick" else \
         [0x40, 0x53, 0x90, 0x98, 0xB0, 0xC8, 0xCA, 0xE0, 0xE8, 0xF0, 0xF8, 0x45, 0x4D, 0x6C, 0x04, 0x05, 0x06, 0xCB, 0xCF, 0xC4, 0xD4, 0x2C, 0x3D, 0xFD, 0xED, 0xFE, 0x01, 0xDE]
     for y in ys:
@@ -461,11 +465,125 @@ def run_split(tier, y):
     return res
 
 
+def run_rust_hidden(tier, prefix, opcode):
+    """Rust core: LlamaExecutor::execute after an arbitrary hidden history (TEMP registers, call depth / sub level, one call
+    frame, one saved call page as fresh variables h_*) next to symbolic architectural state and symbolic operand bytes;
+    no hidden variable may influence the path taken or any observable (registers, flags, memory, returned length/error)."""
+    from .parity_check import rust_paths
+    from engines.rsym import interp
+
+    key = f"rust-hidden:{'--' if prefix is None else '%02X' % prefix}:{opcode:02X}"
+    res = {"key": key, "paths": 0, "exec": 0, "obligations": 0, "discharged": 0, "unknown": 0, "syntactic": 0, "cex": [], "solver_time": 0.0,
+           "samples": [], "inconclusive": [], "mnemonics": {}}
+    B = z3.BitVec
+    code = ([prefix] if prefix is not None else []) + [opcode] + [B(f"b{i}", 8) for i in range(1, 6)] + [0] * 8
+    extra = {20 + i: z3.ZeroExt(8, B(f"h_temp{i}", 24)) for i in range(14)}
+    extra.update({34: B("h_depth", 32), 35: B("h_sub", 32), 36: z3.ZeroExt(12, B("h_frame_dest", 20)), 37: z3.ZeroExt(24, B("h_frame_bits", 8)),
+                  38: z3.ZeroExt(12, B("h_page", 20)), 39: z3.ZeroExt(30, B("h_have", 2))})
+    N = 2 if tier == "quick" else 3
+    assumptions = [z3.ULE(B("r_I", 16), N)]
+    runs = {}
+    for have in (0, 3):
+        # have = 0: fresh state (no frame, no saved page; TEMPs/depth still arbitrary); have = 3: a pending call frame and a saved page
+        extra[39] = have
+        try:
+            paths, stats = rust_paths(code, assumptions, entry="harness_execute_hidden", extra_inputs=dict(extra), deadline_s=150 if tier == "quick" else 600)
+        except core.PathLimit as e:
+            res["inconclusive"].append(f"rust: {e}")
+            return res
+        res["solver_time"] += stats.solver_time
+        res["paths"] += len(paths)
+        done = []
+        for q in paths:
+            if q.status == "inconclusive":
+                res["inconclusive"].append("rust: " + q.detail[:100])
+                continue
+            if q.status == "exception":
+                res["cex"].append({"key": f"{key}|harness-exception", "summary": repr(q.exc)[:160], "payload": None})
+                continue
+            v = q.value
+            res["exec"] += 1
+            obs = [interp.to_term(v["ret"], 32) if v["ret"] is not None else z3.BitVecVal(0, 32), v["mem"], z3.BoolVal(v["panic"] is not None)]
+            obs += [interp.to_term(v["out"][k], 32) for k in sorted(v["out"])]
+            done.append((q, obs))
+        runs[have] = done
+    res["mnemonics"][f"{opcode:02X}"] = len(runs[0])
+
+    def cex(q, m_, hv, what):
+        model = {str(d): m_[d].as_long() for d in m_.decls() if hasattr(m_[d], "as_long")}
+        codev = [c if isinstance(c, int) else m_.eval(c, model_completion=True).as_long() for c in code]
+        payload = {"property": "C07", "kind": "history", "rust": True, "key": key, "code": codev, "model": model, "hidden": [str(h) for h in hv], "what": what}
+        res["cex"].append({"key": f"{key}|{what}|{','.join(sorted({str(h).rstrip('0123456789') for h in hv})) or 'frame/page'}", "summary": f"{key}: {what} {sorted(str(h) for h in hv)[:4]}", "payload": payload})
+
+    x = z3.BitVec("x_frame", 32)
+
+    def differ(o1, o2):
+        if len(o1) != len(o2):
+            return z3.BoolVal(True)
+        return z3.Or(*[(z3.Select(a_, x) != z3.Select(b_, x)) if z3.is_array(a_) else (a_ != b_) for a_, b_ in zip(o1, o2)])
+
+    # (1) within each run: no hidden *value* (TEMPs, depth, sub level, frame contents, page) influences path or observables
+    for have, done in runs.items():
+        for q, obs in done:
+            res["obligations"] += 1
+            hv = hidden_vars(list(q.constraints) + obs)
+            if not hv:
+                res["discharged"] += 1
+                res["syntactic"] += 1
+                continue
+            sub = [(h, z3.BitVec(str(h) + "'", h.size())) for h in hv]
+            ok = True
+            for q2, obs2 in done:
+                r_, m_, dt = X.solve(list(q.constraints) + [z3.substitute(c, *sub) for c in q2.constraints] + assumptions, [differ(obs, [z3.substitute(o, *sub) for o in obs2])])
+                res["solver_time"] += dt
+                if r_ == "sat":
+                    ok = False
+                    cex(q, m_, hv, "hidden-values-change-the-outcome")
+                    break
+                if r_ != "unsat":
+                    ok = False
+                    res["unknown"] += 1
+                    break
+            if ok:
+                res["discharged"] += 1
+    # (2) across the runs: a pending frame / saved page does not change the outcome either
+    sig = lambda q, obs: (tuple(sorted(core._canon_hash(z3.simplify(c)) or id(c) for c in q.constraints)), tuple(core._canon_hash(o) if not z3.is_array(o) else core._canon_hash(z3.Select(o, x)) for o in obs))  # noqa: E731
+    index = {}
+    for q, obs in runs[3]:
+        index[sig(q, obs)] = True
+    for q, obs in runs[0]:
+        res["obligations"] += 1
+        sg = sig(q, obs)
+        if None not in sg[0] and None not in sg[1] and sg in index:
+            res["discharged"] += 1
+            res["syntactic"] += 1
+            if not res["samples"]:
+                res["samples"].append({"class": key, "how": "the run with a pending call frame and saved page has a path with the same condition and the same observables", "observables": len(obs)})
+            continue
+        ok = True
+        for q2, obs2 in runs[3]:
+            r_, m_, dt = X.solve(list(q.constraints) + list(q2.constraints) + assumptions, [differ(obs, obs2)])
+            res["solver_time"] += dt
+            if r_ == "sat":
+                ok = False
+                cex(q, m_, [], "pending-call-frame-or-saved-page-changes-the-outcome")
+                break
+            if r_ != "unsat":
+                ok = False
+                res["unknown"] += 1
+                break
+        if ok:
+            res["discharged"] += 1
+    return res
+
+
 def run_class(item):
     tier, c = item
     X.setup()
     t0 = time.time()
-    if c[0] == "hidden":
+    if c[0] == "rust-hidden":
+        r = run_rust_hidden(tier, c[1], c[2])
+    elif c[0] == "hidden":
         r = run_hidden(tier, c[1], c[2], c[3], c[4])
     elif c[0] == "process":
         r = run_process(tier, c[2])
@@ -517,7 +635,8 @@ def main(tier):
         "decided_syntactically": tot["syntactic"], "inconclusive": n_incon,
         "rule": "one class per (prefix, opcode, length) with all hidden state symbolic + process-history pairs (Y after X) + stepper/in-place pairs; distinct = distinct mnemonics / pair ids",
         "samples": samples[:12], "solver_time_s": round(solver_time, 2), "inconclusive_details": inconcl[:10],
-        "functions_encoded": ["Emulator.execute_instruction (TEMP0..13, call_sub_level, _last_pc, _current_pc symbolic)", "every lift in instr/instructions.py",
+        "functions_encoded": ["Rust (LLVM IR): LlamaExecutor::execute after LlamaState::set_reg(Temp(0..13)), set_call_depth, set_call_sub_level, push_call_frame, push_call_page with symbolic values (harness_execute_hidden)",
+                              "Emulator.execute_instruction (TEMP0..13, call_sub_level, _last_pc, _current_pc symbolic)", "every lift in instr/instructions.py",
                               "CPUStepper.step, CPURegistersSnapshot, CPU facade (python backend)", "create_instruction/deepcopy of operand templates across emulator instances"],
         "bounds": {"history": "arbitrary hidden state before one instruction (subsumes arbitrary histories for the state they can leave behind); process history depth 1",
                    "I": "1..2", "rust_core": "outside this check until the rsym engine carries LlamaExecutor::execute"},
